@@ -71,6 +71,10 @@ def stepCLFees (f : Fees) (op : String) (args : List String) : Fees × String :=
   | "fdump", [] => (f, dumpFees f)
   | "est", _ => let r := stepCLPool f.pool op args; (f, r.2)
   | "dump", [] => (f, dumpPool f.pool)
+  -- genesis export → import of the module (Model/CLPoolGenesis): identity on the pool component (proved:
+  -- `Props.C19.cl_export_import_eq`); the spread-reward accumulators are part of the genesis and are carried over unchanged
+  | "exportimport", [] => let r := stepCLPool f.pool op args; ({ f with pool := r.1 }, r.2)
+  | "nextid", [] => let r := stepCLPool f.pool op args; (f, r.2)
   | _, _ => (f, "bad-op")
 
 end OsmoVerif.CLFees
